@@ -23,7 +23,7 @@ ASSUMPTIONS = ["multiprocessing start method is fork (Linux default), as the mod
 EXHAUSTIVE = {"quick": ["Latin-square sample of the len x n_cpu x compression x mode grid"],
               "thorough": ["full grid len(seqs) 1..24 x n_cpu 1..16 x 8 compressions (mode rotating), plus n_cpu>len for every len<=8"]}
 WAIVE_IF = {"worker_log_unavailable": ["worker_events", "exactly_once_checked_calls"]}
-REQUIRE = {"config_cases": 28, "multi_process_calls": 24, "ncpu_gt_len_cases": 5, "chunk_not_dividing_cases": 10,
+REQUIRE = {"big_config_cases": 1, "config_cases": 28, "multi_process_calls": 24, "ncpu_gt_len_cases": 5, "chunk_not_dividing_cases": 10,
            "compression_gt1_cases": 20, "worker_events": 200, "exactly_once_checked_calls": 28,
            "max_returns_cases": 15, "max_returns_truncating": 10, "mode_hamming": 9, "mode_custom": 9}
 SHARDS = {"quick": 8, "thorough": 16}
